@@ -21,7 +21,7 @@ ENC = ("cont_multi", "cont_singles", "multi_objective", "multi_objective", "disc
 def strategy(optimizer, tier):
     return strategies.run_spec(
         optimizer,
-        task=strategies.task_spec(encodings=ENC, minmax=("min", "max", "max")),
+        task=strategies.task_spec(encodings=ENC, minmax=("min", "max", "max"), families=strategies.WILD_FAMILIES),
         config=strategies.config_spec(optimizer, max_cycles=(1, 6 if tier == "quick" else 20)),
         modes=("serial",) * 20 + ("thread", "process"), warmup=0.15)
 
